@@ -90,3 +90,11 @@ Definition check_case (c : ccase) : bool :=
 Definition eval_modelled (c : ccase) : bool :=
   match c with CCase lib ps inp _ (OEval _ _) _ => match eval_parts inp lib ps [] with Some _ => true | None => false end
           | _ => false end.
+
+Definition eval_observed (c : ccase) : bool := match c with CCase _ _ _ _ (OEval _ _) _ => true | _ => false end.
+(* (cases with an observed evaluation, those the model evaluator answered (not Unsup / NoFuel), those in a proved
+   fragment among the observed, those in a proved fragment that the model evaluator answered) *)
+Definition eval_counts (cs : list ccase) : nat * nat * nat * nat :=
+  let obs := filter eval_observed cs in
+  let frag := filter (fun c => match c with CCase lib ps _ _ _ _ => case_in_fragment lib ps end) obs in
+  (List.length obs, List.length (filter eval_modelled obs), List.length frag, List.length (filter eval_modelled frag)).
